@@ -85,7 +85,7 @@ CLAIMED = {
  "C11": C("Proved on the parser model: C11_exact_mailbox (for every `<local@domain>` with a non-empty dot-string local part and a non-empty "
           "domain not ending in '@' - the class every real client sends - the parser returns exactly that mailbox and leaves exactly what follows "
           "'>' for the parameter parser), C11_special_refused (a special character in an unquoted local part refuses the path, whatever "
-          "follows), C11_quoted_exact (every local part written as a quoted-string with backslash and quote escaped is returned unescaped), C11_null_sender; on the server model's handlers (Props/C11Server.lean): C11_mail_exact_or_refused / C11_rcpt_exact_or_refused (for EVERY connection state and EVERY argument octet string the handler either calls the backend with exactly the decoded mailbox and options - keyword, TrimSpace, path parser, parseArgs, parameter switch composed in source order - or writes one 5xx reply (452 for the recipient limit) and calls nothing), C11_mail_refused_before_backend (an argument that does not decode is answered 5xx with a class-5 enhanced code and no callback, whatever the state); with C12_disabled_504 for parameters of disabled extensions. Implementation: every short string over 16 "
+          "follows), C11_quoted_exact (every local part written as a quoted-string with backslash and quote escaped is returned unescaped), C11_null_sender; on the server model's handlers (Props/C11Server.lean): C11_empty_value_unparsable / C11_empty_value_refused (a parameter string with a field `KEYWORD=` and no value does not parse, wherever the field stands: `SMTPUTF8=` is not the flag), C11_mail_exact_or_refused / C11_rcpt_exact_or_refused (for EVERY connection state and EVERY argument octet string the handler either calls the backend with exactly the decoded mailbox and options - keyword, TrimSpace, path parser, parseArgs, parameter switch composed in source order - or writes one 5xx reply (452 for the recipient limit) and calls nothing), C11_mail_refused_before_backend (an argument that does not decode is answered 5xx with a class-5 enhanced code and no callback, whatever the state); with C12_disabled_504 for parameters of disabled extensions. Implementation: every short string over 16 "
           "syntactically significant symbols and mutations of valid paths, classified by an independent RFC 5321 reference grammar "
           "(valid => exact mailbox, invalid(class) => refused); parser entry points and parameter handling (good, bad, disabled, duplicated, "
           "lower-case, long-s spelled values) compared with the model.",
